@@ -2,9 +2,9 @@ package rules
 
 import (
 	"fmt"
+	"go/token"
 	"go/types"
 	"os"
-	"go/token"
 	"sort"
 	"strings"
 
@@ -21,24 +21,24 @@ func init() { All["C08"] = checkC08 }
 // process built or already decoded, or whose reachability is not decided. A
 // fatal sink guarded only by them is listed as an assumption.
 var assumedInfallible = map[string]string{
-	"(github.com/google/gopacket.Payload).SerializeTo":                            "appends bytes to the serialize buffer; fails only on buffer growth errors",
-	"(*github.com/scionproto/scion/pkg/slayers.SCION).SerializeTo":               "serialises a header this process decoded/built; fails for inconsistent address lengths or path serialisation (excluded by a successful decode)",
-	"(*github.com/scionproto/scion/pkg/slayers.UDP).SerializeTo":                 "fixed 8-byte header",
-	"(*github.com/scionproto/scion/pkg/slayers.SCMP).SerializeTo":                "fixed header + checksum over a set network layer",
-	"(*github.com/scionproto/scion/pkg/slayers.EndToEndExtn).SerializeTo":        "options built by this process / decoded before",
-	"(github.com/google/gopacket.SerializeBuffer).Clear":                          "resets the buffer; the gopacket implementation always returns nil",
-	"github.com/scionproto/scion/pkg/spao.ComputeAuthCMAC":                       "fails only for header > 1020 B, unaligned header or unknown path type - all excluded by a successful DecodeLayers (mac.go:116-188)",
-	"example.com/scion-time/net/scion.DeriveHostHostKey":                          "host string is netip.Addr.String() of a 4/16-byte address, always accepted by addr.ParseHost (generic.go:75)",
-	"(*github.com/scionproto/scion/pkg/slayers.SCION).SetSrcAddr":                "IP host addresses are always accepted",
-	"(*github.com/scionproto/scion/pkg/slayers.SCION).SetDstAddr":                "IP host addresses are always accepted",
-	"(github.com/scionproto/scion/pkg/slayers/path.Path).SerializeTo":            "buffer sized with Path.Len() of the same decoded path",
-	"(github.com/scionproto/scion/pkg/snet.DataplanePath).SetPath":               "path object obtained from the local daemon / constructed locally",
+	"(github.com/google/gopacket.Payload).SerializeTo":                    "appends bytes to the serialize buffer; fails only on buffer growth errors",
+	"(*github.com/scionproto/scion/pkg/slayers.SCION).SerializeTo":        "serialises a header this process decoded/built; fails for inconsistent address lengths or path serialisation (excluded by a successful decode)",
+	"(*github.com/scionproto/scion/pkg/slayers.UDP).SerializeTo":          "fixed 8-byte header",
+	"(*github.com/scionproto/scion/pkg/slayers.SCMP).SerializeTo":         "fixed header + checksum over a set network layer",
+	"(*github.com/scionproto/scion/pkg/slayers.EndToEndExtn).SerializeTo": "options built by this process / decoded before",
+	"(github.com/google/gopacket.SerializeBuffer).Clear":                  "resets the buffer; the gopacket implementation always returns nil",
+	"github.com/scionproto/scion/pkg/spao.ComputeAuthCMAC":                "fails only for header > 1020 B, unaligned header or unknown path type - all excluded by a successful DecodeLayers (mac.go:116-188)",
+	"example.com/scion-time/net/scion.DeriveHostHostKey":                  "host string is netip.Addr.String() of a 4/16-byte address, always accepted by addr.ParseHost (generic.go:75)",
+	"(*github.com/scionproto/scion/pkg/slayers.SCION).SetSrcAddr":         "IP host addresses are always accepted",
+	"(*github.com/scionproto/scion/pkg/slayers.SCION).SetDstAddr":         "IP host addresses are always accepted",
+	"(github.com/scionproto/scion/pkg/slayers/path.Path).SerializeTo":     "buffer sized with Path.Len() of the same decoded path",
+	"(github.com/scionproto/scion/pkg/snet.DataplanePath).SetPath":        "path object obtained from the local daemon / constructed locally",
 }
 
 // interpretClass: library operations that can fail because of what the peer
 // sent; each row names a concrete failing input.
 var interpretClass = map[string]string{
-	"net/netip.AddrFromSlice": "ok=false unless len is 4 or 16: a SCION header with address type length 8 or 12 decodes fine and fails here",
+	"net/netip.AddrFromSlice":                                             "ok=false unless len is 4 or 16: a SCION header with address type length 8 or 12 decodes fine and fails here",
 	"(github.com/scionproto/scion/pkg/slayers/path.Path).Reverse":         "errors on an empty decoded SCION path and on a one-hop path with SecondHop.ConsIngress == 0",
 	"(github.com/scionproto/scion/pkg/snet.DefaultReplyPather).ReplyPath": "same as Reverse, plus unknown path type",
 	"net.ParseIP": "returns nil for host names (RFC 8915 allows a name in the NTPv4 Server record)",
@@ -119,12 +119,15 @@ func checkC08(p *ana.Prog, r *ana.Result) {
 		r.Saw(ana.FuncName(f))
 	}
 	r.Floor("C08.reachable-functions", len(ts.Reachable()), 100)
+	pset := ana.NewProverSet(p.AllFuncs)
+	pset.PhiLower = phiLowerBound
+	ana.DebugStable = os.Getenv("C08_STABLE") != ""
 	c08Sources(p, r, ts)
-	c08Fatal(p, r, ts)
+	c08Fatal(p, r, ts, pset)
 	c08PacketConn(p, r, ts)
 	c08Cmsg(p, r, ts)
 	c08Progress(p, r, ts)
-	c08Bounds(p, r, ts)
+	c08Bounds(p, r, ts, pset)
 }
 
 // ---- C08.sources ------------------------------------------------------------
@@ -283,7 +286,7 @@ func rank(k string) int {
 	return 0
 }
 
-func c08Fatal(p *ana.Prog, r *ana.Result, ts *ana.TaintState) {
+func c08Fatal(p *ana.Prog, r *ana.Result, ts *ana.TaintState, pset *ana.ProverSet) {
 	nSinks := 0
 	counts := map[string]int{}
 	for _, f := range ts.Reachable() {
@@ -345,8 +348,18 @@ func c08Fatal(p *ana.Prog, r *ana.Result, ts *ana.TaintState) {
 				}
 				if k == "direct" {
 					if okI, whyI := lengthEstablishedByEarlierCall(p, ts, f, iff.Cond); okI {
-						worst, worstWhat = "dead", "accepted idiom 'length established by earlier call': " + whyI
+						worst, worstWhat = "dead", "accepted idiom 'length established by earlier call': "+whyI
 						break
+					}
+				}
+				if k == "direct" {
+					// the guard is a condition on the function's parameters that every caller excludes
+					if goals := pset.For(f).OppositeEdgeFacts(e.From, e.Succ); len(goals) > 0 {
+						o := boundObl{fn: f, in: iff, desc: desc, goals: goals}
+						if okL, how := liftToCallers(p, ts, o, pset.For, 0); okL {
+							worst, worstWhat = "dead", "every call site establishes the negation of the guard ("+how+")"
+							break
+						}
 					}
 				}
 				if rank(k) > rank(worst) {
